@@ -17,7 +17,7 @@ def ack_type_region(ck, agg):
     for t in range(256):
         st = State()
         fr = net.sym_frame(st, ck.prog, "frame", {"message_type": t})
-        outs, it = net.run(ck, f, S["RF24NetworkFrame"], fr, [], st)
+        outs, it = net.run(ck, f, S["RF24NetworkFrame"], fr, [], st, decide=True)
         for out in outs:
             if out.kind == "return" and value_matches(out.value, True):
                 acc.append(t)
@@ -75,7 +75,7 @@ def write_rules(ck, agg, nn):
             wd = Sym("write_direct", "int", rng=(0, 0o7777))
             hdr = st.heap[st.heap[node.ident].fields["frame_buf"].ident].fields["header"]
             from_node0 = st.heap[hdr.ident].fields["from_node"]
-            addr = st.heap[node.ident].fields["_addr"]
+            addr = st.heap[node.ident].fields[net.FN("_addr")]
             outs = nn.run(f, node, [wd, send_type], st, limits=Limits(max_paths=60000, loop_unroll=2, depth=14, concrete_loop=10))
             label = "_write(type %d, send_type %d)" % (mtype, send_type)
             is_ack = T.ACK_TYPE_RANGE[0] <= mtype <= T.ACK_TYPE_RANGE[1]
@@ -178,7 +178,7 @@ def receive_rule(ck, agg, nn):
     for rsm in (True, False):
         n += 1
         st, node = nn.fresh(frame_pins={"message_type": NETWORK_ACK}, fields={"ret_sys_msg": rsm})
-        outs = nn.run(f, node, [NETWORK_ACK], st)
+        outs = nn.run(f, node, net.handler_args(f, NETWORK_ACK), st)
         for out in outs:
             enq = [e for e in out.trace if e.kind == "enqueue"]
             wr = [e for e in out.trace if e.kind == "summary"]
@@ -195,8 +195,8 @@ def receive_rule(ck, agg, nn):
     for am in (True, False):
         for mtype in (NETWORK_ACK, 65, 0):
             n += 1
-            st, node = nn.fresh(frame_pins={"message_type": mtype, "to_node": 0o25}, fields={"allow_multicast": am, "_addr": 0o5, "ret_sys_msg": False})
-            outs = nn.run(f2, node, [mtype], st)
+            st, node = nn.fresh(frame_pins={"message_type": mtype, "to_node": 0o25}, fields={"allow_multicast": am, net.FN("_addr"): 0o5, "ret_sys_msg": False})
+            outs = nn.run(f2, node, net.handler_args(f2, mtype), st)
             for out in outs:
                 v = out.value
                 wr = [e for e in out.trace if e.kind == "summary" and e.data[0] == "_write"]
